@@ -121,6 +121,18 @@ fn push_atom(b: &mut Vec<u8>, s: &str) {
 }
 
 pub fn build(v: &Value) -> OwnedTerm {
+    // "wrap": "headless" -- the value held as the tail of an improper list without elements (LIST_EXT with a zero count is its tail)
+    if v.get("wrap").and_then(|w| w.as_str()) == Some("headless") {
+        let mut inner = v.clone();
+        if let Some(o) = inner.as_object_mut() {
+            o.remove("wrap");
+        }
+        return OwnedTerm::ImproperList { elements: Vec::new(), tail: Box::new(build_plain(&inner)) };
+    }
+    build_plain(v)
+}
+
+fn build_plain(v: &Value) -> OwnedTerm {
     let k = v["k"].as_str().unwrap_or("");
     match k {
         "int" => build_int(
